@@ -8,21 +8,24 @@ HERE = os.path.dirname(os.path.dirname(os.path.abspath(__file__)))
 NOTE = ("Theorem about a hand-written Lean 4 model (lean/QsModel), proved for all inputs/histories with axioms "
         "propext, Classical.choice, Quot.sound only; the model is tied to /repo on every run by a differential "
         "correspondence (real code vs compiled model, Float carrier bit-for-bit, Rat carrier exact) scoped to the "
-        "property's component, plus an exact-arithmetic property oracle on the real traces. The tie is sampled; "
-        "float rounding, pandas/NumPy/CPython internals are modelled, not verified (DESIGN.md 9, 10).")
+        "property's component, plus an exact-arithmetic property oracle on the real traces. That tie is sampled. "
+        "For the arithmetic kernels (Position, fee models, weight normalisation, sizing and fill kernels) a second, "
+        "unsampled tie runs on every check: harness/translate.py re-translates the Python source of /repo's working tree "
+        "to Lean and Lean proves the translation equal to the model (DESIGN.md 13). "
+        "Float rounding, pandas/NumPy/CPython internals are modelled, not verified (DESIGN.md 9, 10).")
 
 CLAIMED = {
     'C01': ('K3', 'ledger invariant by induction over operation sequences (Lean) + stepwise correspondence of cash, history and aggregates', '6 C01'),
-    'C02': ('K3', 'holdings invariant by induction over fill/mark sequences (Lean) + stepwise correspondence of quantities and valuation', '6 C02'),
-    'C03': ('K3', 'P&L identity by reachability invariant and field algebra (Lean) + bit-exact correspondence of Position P&L', '6 C03'),
-    'C04': ('K3', 'queue conservation / exactly-once by induction over op sequences (Lean) + stepwise correspondence of queues and fill order', '6 C04'),
-    'C05': ('K3', 'execution and fee-model theorems (Lean) + correspondence of each recorded Transaction with the model', '6 C05'),
+    'C02': ('K3', 'holdings invariant by induction over fill/mark sequences (Lean) + stepwise correspondence of quantities and valuation + structural tie (source translated to Lean, proved equal to the model) for Position quantities and valuation', '6 C02'),
+    'C03': ('K3', 'P&L identity by reachability invariant and field algebra (Lean) + bit-exact correspondence of Position P&L + structural tie for every Position formula', '6 C03'),
+    'C04': ('K3', 'queue conservation / exactly-once by induction over op sequences (Lean) + stepwise correspondence of queues and fill order + structural tie for the fill kernel', '6 C04'),
+    'C05': ('K3', 'execution and fee-model theorems (Lean) + correspondence of each recorded Transaction with the model + structural tie for the fill kernel and the fee models', '6 C05'),
     'C06': ('K2', 'refinement of the sort/expand/forward-fill/pad-lookup pipeline to "latest observed row at or before t" (Lean) + correspondence of CSV data source and handler', '6 C06'),
     'C07': ('K7', 'causality by induction over the event list: the step function receives the market only at the event time (Lean) + read-log check and paired real runs on rewritten futures', '6 C07'),
-    'C08': ('K7', 'refinement of the operational session model to the day-indexed reference (Lean) + whole-run correspondence of implementation, operational model and reference', '6 C08'),
+    'C08': ('K7', 'refinement of the operational session model to the day-indexed reference (Lean) + whole-run correspondence of implementation, operational model and reference + structural tie for the fill, sizing and fee kernels', '6 C08'),
     'C09': ('K4+K7', 'order-diff and asset-union theorems over association lists (Lean) + correspondence of PortfolioConstructionModel.__call__', '6 C09'),
-    'C10': ('K4', 'floor/budget inequalities over ordered fields with a floor (Lean) + exact correspondence of target quantities', '6 C10'),
-    'C11': ('K4', 'truncation/sign/gross-exposure inequalities over ordered fields (Lean) + exact correspondence of target quantities', '6 C11'),
+    'C10': ('K4', 'floor/budget inequalities over ordered fields with a floor (Lean) + exact correspondence of target quantities + structural tie for weight normalisation, the per-asset kernel and the fee models', '6 C10'),
+    'C11': ('K4', 'truncation/sign/gross-exposure inequalities over ordered fields (Lean) + exact correspondence of target quantities + structural tie for gross-leverage scaling, the per-asset kernel and the fee models', '6 C11'),
     'C12': ('K1', 'generative date_range = filter over the day range, by induction (Lean) + correspondence of the event list with pandas', '6 C12'),
     'C13': ('K1', 'schedule = declarative calendar filter, structural months (Lean) + correspondence with the four Rebalance classes', '6 C13'),
     'C16': ('K5+K7', 'deque-window lemma and telescoping product (Lean) + correspondence of buffers and signal values', '6 C16'),
@@ -30,7 +33,7 @@ CLAIMED = {
     'C19': ('K4+K7', 'universe membership and PCM composition invariant (Lean) + correspondence of universes, alpha keys, optimisers', '6 C19'),
     'C14': ('K7', 'fold invariant over the event list: rebalances = clock ∩ schedule ∩ burn-in, equity at closes, allocation table (Lean) + structural correspondence of sessions', '6 C14'),
     'C18': ('K7', 'independence of set-enumeration order, memo table and order ids (Lean) + repeated real runs: same process, reused data source, fresh interpreters under different hash seeds', '6 C18'),
-    'C15': ('K3', 'case analysis of the step function: refusal leaves the observable state unchanged (Lean) + stepwise correspondence of refusals', '6 C15'),
+    'C15': ('K3', 'case analysis of the step function: refusal leaves the observable state unchanged (Lean) + stepwise correspondence of refusals + structural tie for the refusal paths of Position', '6 C15'),
 }
 
 NOT_YET = {}
@@ -66,7 +69,7 @@ def main():
                                                                      'theorems not yet registered (see DESIGN.md 11)')))
     m = dict(
         version=1,
-        setup_cmd='cd lean && lake build QsModel QsProofs qsdriver',
+        setup_cmd='cd lean && lake build QsModel QsProofs QsGen QsProofs.Tie.PositionGen QsProofs.Tie.KernelsGen qsdriver',
         hooks=dict(guard='QSTRADER_VERIF', enable='no source hooks are needed: all observation points are reached from '
                    'outside (instance-level taps installed by the harness); the guard names no code',
                    baseline_off_cmd='cd /repo && /venv/bin/python -m pytest -ra -q -p no:cacheprovider --timeout=900 '
